@@ -17,7 +17,7 @@ PageSpace == [cols : 1..3, rows : 2..4, fill : {"full", "ragged", "sparse"},
               feature : {"none", "stickout", "tinyline", "title", "headingcol", "bullets", "duplayer", "charlevel", "fineprint", "widetitle", "marginnums", "footmark",
                          "scale10", "scale01", "inverted", "offsetbox", "rtl", "spaceonly", "shortlast", "justified", "repeatword", "nestedbullets", "numbered", "itemlist", "nestedlist",
                          "hyphenated", "softhyphen", "dashend",
-                         "midspan", "footspan", "narrowcols", "midmark"}]       \* a full-width line between the rows of the body / under it with a page number below; nothing but narrow columns    \* lines of a paragraph ending in a hyphen / soft hyphen / dash: characters like any other
+                         "midspan", "footspan", "narrowcols", "midmark", "headingcol2"}]       \* a full-width line between the rows of the body / under it with a page number below; nothing but narrow columns    \* lines of a paragraph ending in a hyphen / soft hyphen / dash: characters like any other
 GInit == pg \in PageSpace /\ Init
 GNext == UNCHANGED <<pg, vars>> /\ FALSE
 GSpec == GInit /\ [][GNext]_<<pg, vars>>
